@@ -533,6 +533,22 @@ def call_container_method(I: Interp, recv: SV, name: str, args, kwargs, fr: Fram
         if name == "split":
             raise Refuse("str.split")
         raise Refuse(f"str.{name}")
-    if k == "ext" and ty.a[0] == "rng":
+    if k == "ext" and ty.a[0] in ("rng", "numpy.random._generator.Generator", "numpy.random.Generator"):
+        if name == "choice" and len(args) == 1 and "p" in kwargs:
+            # numpy Generator.choice(n, p=vec): requires len(vec) == n; ensures 0 <= r < n and vec[r] > 0
+            n_, _ = I.num(args[0])
+            p_ = kwargs["p"]
+            if not isinstance(p_, SV) or T.strip_opt(p_.ty).k not in ("list", "dict"):
+                raise Refuse("rng.choice(p=...) with a non-sequence probability vector")
+            r_ = st.fresh("rng_choice", smt.I)
+            if T.strip_opt(p_.ty).k == "list":
+                st.oblige("safety", "choice_vector_length", I.list_len(p_) == n_, line)
+                pv, isr = I.num(SV(z3.Select(z3.Select(st.arr("lel"), smt.rid(p_.t)), r_), T.FLOAT))
+            else:  # the vector is only known through an (ill-annotated) mapping-typed contract result: index = key
+                st.oblige("safety", "choice_vector_length", z3.Select(st.arr("dsz"), smt.rid(p_.t)) == n_, line)
+                pv, isr = I.num(SV(z3.Select(z3.Select(st.arr("dget"), smt.rid(p_.t)), smt.mk_int(r_)), T.FLOAT))
+            st.assume(z3.And(r_ >= 0, r_ < n_, pv > 0))
+            st.log.append("numpy Generator.choice(n, p): 0 <= r < n and p[r] > 0 (assumed library contract)")
+            return SV(smt.mk_int(r_), T.INT)
         raise Refuse(f"rng.{name}")
     raise Refuse(f"method {name} on value of type {recv.ty}")
